@@ -65,7 +65,9 @@ def run(ctx, res):
     # a valid program with one stray token at the very end / its last token deleted, with and without a final newline
     for _ in range(ctx.budget(40, 1500)):
         base = gen_lua.gen_program(rng, style=rng.choice(['spaced', 'lines', 'compact']))[0].rstrip(b' \t\r\n')
-        extra = rng.choice([b')', b'end', b'?', b'=', b']', b'}', b',', b'then', b'..', b'1 2', b'|= 1'])
+        # (one stray token of EVERY token class: symbol, keyword, name, number, string, label)
+        extra = rng.choice([b')', b'end', b'?', b'=', b']', b'}', b',', b'then', b'..', b'1 2', b'|= 1', b'"s" "t"', b'[[x]] y', b'else', b'until x',
+                            b'::lbl:: ::lbl2:: )', b'0x1 0x2', b'nil'])
         cases.append((base + rng.choice([b' ', b'\n']) + extra + rng.choice([b'', b'', b'\n']), 2, 'malformed', None))
     # long and deep valid programs (no limit is part of the dialect): the formatter handles them like any other
     for s_ in (b'if a then x=0\n' + b''.join(b'elseif a==%d then x=%d\n' % (k, k) for k in range(130)) + b'else x=-1 end\n',
@@ -74,6 +76,11 @@ def run(ctx, res):
                b''.join(b'function f%d() ' % k for k in range(40)) + b'return 0 ' + b'end ' * 40 + b'\n',
                b''.join(b'a%d=%d\n' % (k, k) for k in range(800)), b'u=1' + b'+1' * 300 + b'\n'):
         cases.append((s_, rng.randrange(0, 5), 'valid', None))
+    # code after a top-level `return` / `break` (whatever class its first token has — a label too) is not part of the program the parser
+    # accepted: the formatter must not write the part before it as if that were all
+    for s in (b'add(1)\nreturn\n::again::\nadd(2)\n', b'x=1\nbreak ::l:: y=2\n', b'return 1\n::l::\n', b'f()\nreturn\n"s"\n', b'return\n42\n',
+              b'return\nx=1\n', b'return\n--[[c]]::l:: goto l\n', b'return nil\n[[long]]\n', b'a=1\nreturn a\nfunction f() end\n'):
+        cases.append((s, 2, 'malformed', None))
     for s in (b'x = 1 )', b'x = 1 )\n', b'print(1)\nreturn 2\n?', b'function f()\n x = 1\nend\nend', b'a=1 end'):
         cases.append((s, 2, 'malformed', None))
     for s in (b'a=b=c\n', b'a |= 1\nb=2\n', b'?x,y\n', b'x = 1 +\n', b'f(\n', b'a=1 )\nb=2\n', b'end\n', b'(f or g)(x)\n', b'a=(b or c).d\n', b'a=("s"):rep(2)\n'):
